@@ -15,14 +15,16 @@ Tok(t, n, e) == [text |-> t, num |-> n, e |-> e]
 Coords == <<Tok("0", 0, 0), Tok("1.5", 15, -1), Tok("-2.25", -225, -2), Tok("12345.678", 12345678, -3),
             Tok("2.5e-05", 25, -6), Tok("-3E+2", -3, 2), Tok("0.349", 349, -3), Tok("-1207.0", -1207, 0)>>
 ElsSeq == <<"C", "O", "H", "Zr">>
-Scheme(s) == CASE s = "seq"      -> <<"a1", "a2", "a3", "a4">>
-               [] s = "shuffled" -> <<"a3", "a1", "a4", "a2">>
-               [] s = "gaps"     -> <<"a10", "a2", "a7", "a31">>
-               [] s = "strings"  -> <<"C_alpha", "x", "y2", "Zr-1">>
-               [] s = "offbyone" -> <<"a2", "a3", "a4", "a1">>
-Schemes == {"seq", "shuffled", "gaps", "strings", "offbyone"}
+\* id of atom i (1-based) in a document of n atoms
+Id(s, n, i) == CASE s = "seq"      -> "a" \o ToString(i)
+                 [] s = "shuffled" -> "a" \o ToString(((i + 1) % n) + 1)            \* a permutation of a1..an, never in order for n >= 2
+                 [] s = "reversed" -> "a" \o ToString(n + 1 - i)
+                 [] s = "gaps"     -> "a" \o ToString(<<10, 2, 7, 31>>[i])
+                 [] s = "strings"  -> <<"C_alpha", "x", "y2", "Zr-1">>[i]
+                 [] s = "offbyone" -> "a" \o ToString(i + 1)                        \* a2..a(n+1): looks like another atom's ordinal
+Schemes == {"seq", "shuffled", "reversed", "gaps", "strings", "offbyone"}
 
-AtomsFor(n, s, c0) == [i \in 1..n |-> [id |-> Scheme(s)[i], el |-> ElsSeq[((i + c0) % 4) + 1],
+AtomsFor(n, s, c0) == [i \in 1..n |-> [id |-> Id(s, n, i), el |-> ElsSeq[((i + c0) % 4) + 1],
                                       x |-> Coords[((i + c0) % 8) + 1], y |-> Coords[((2 * i + c0) % 8) + 1],
                                       z |-> Coords[((3 * i + c0 + 1) % 8) + 1]]]
 Pairs(n) == {<<i, j>> \in (1..n) \X (1..n) : i # j}
@@ -33,7 +35,7 @@ BondSeqs(n, k) == IF k = 0 THEN {<<>>}
 Init == \E n \in 1..MaxAtoms, s \in Schemes, c0 \in 0..2 :
         \E bs \in BondSeqs(n, IF n = 1 THEN 0 ELSE MaxBonds) :
            doc = [atoms |-> AtomsFor(n, s, c0),
-                  bonds |-> [k \in 1..Len(bs) |-> [a |-> Scheme(s)[bs[k][1]], b |-> Scheme(s)[bs[k][2]], order |-> (k % 2) + 1]]]
+                  bonds |-> [k \in 1..Len(bs) |-> [a |-> Id(s, n, bs[k][1]), b |-> Id(s, n, bs[k][2]), order |-> (k % 2) + 1]]]
 Next == UNCHANGED doc
 Spec == Init /\ [][Next]_vars
 ModelInv == WellFormed(doc) /\ Len(Load(doc).bonds) = Len(doc.bonds)
